@@ -486,6 +486,8 @@ func (p *producer) oracleResponseTx(o Op) (*transaction.Transaction, string) {
 	inv := ms.SignHashable(uint32(bc.GetConfig().Magic), tx)
 	tx.Scripts = []transaction.Witness{{InvocationScript: []byte{}, VerificationScript: []byte{}}, {InvocationScript: inv, VerificationScript: ms.Script()}}
 	desc := fmt.Sprintf("oracleResponse id=%d code=%#x result=%d bytes nodes=%d sysfee=%d netfee=%d (GasForResponse %d)", id, byte(resp.Code), len(resp.Result), len(nodes), tx.SystemFee, tx.NetworkFee, gas)
+	// (a response to a pending request can be byte-identical to one built earlier, when that id was not pending yet)
+	p.ora.unknownTx = util.Uint256{}
 	if unknown {
 		p.ora.unknownTx = tx.Hash()
 		desc += " NOT PENDING"
